@@ -253,8 +253,8 @@ def blackbox(v, wd, inputs, rnd, thorough):
     # process level trace: every hostile connection is accounted for with exactly one terminal state (TraceLife)
     lines, _, _ = life_run.gather(topo, [], 2000)
     # the trace spec's state is a family of functions over all contexts; TLC gets slow beyond a few hundred of them, so the
-    # lifecycle of the first 250 hostile connections is validated (gc events are re-projected onto them)
-    K = 100000
+    # lifecycle of the first 6000 hostile connections is validated (all of them in the quick tier)
+    K = 6000
     sub = [{"ev": "hdr", "n": min(K, lines[0]["n"]), "hist": 2000}]
     for e in lines[1:]:
         if e["ev"] == "gc":
